@@ -17,6 +17,7 @@ from harness.refs import multipart as ref
 
 LEVEL = "exploration"
 RULES = {
+    "atheris": "thorough tier: Atheris/libFuzzer coverage-guided campaign; bytes are decoded into the same structured case and judged by the same oracle inside the target (half of the jobs start from an empty corpus, half from two small valid inputs)",
     "forms": "Hypothesis: forms (RFC 2046 boundaries biased to 1-4 chars, 0..6 field/file parts, hostile content built from CR, LF, "
     "dashes, proper prefixes of CRLF--boundary and look-alike boundaries, optional preamble/epilogue/transport padding, 3 charsets) "
     "x partitions {whole, one byte at a time, EVERY single cut, pairs of cuts at offsets around delimiters and CR/LF, a drawn "
@@ -339,6 +340,19 @@ def tiny_cases():
                                 "parts": [{"name": "n", "filename": fname, "headers": [], "content": c}]}, "max_bits": 12}
 
 
+
+def oracle_atheris(case) -> Result:
+    """Replay / triage oracle for inputs found by the Atheris campaign: decode the bytes like the fuzz target does."""
+    from fuzz import targets
+
+    inner = targets.CASES["C01"](case["data"])
+    res = oracle(inner)
+    res.label("atheris")
+    return res
+
+
+SUBS["atheris"] = oracle_atheris
+
 def run(rec, only=None):
     quick = rec.tier == "quick"
     cases = list(tiny_cases())
@@ -348,3 +362,8 @@ def run(rec, only=None):
     rec.exhaustive["tiny"] = True
     core.drive_hypothesis(rec, "forms", form_case(), oracle, 250 if quick else 6000)
     rec.exhaustive["forms"] = False
+    if not quick:
+        # coverage-guided second engine (Atheris / libFuzzer), same oracle inside the target
+        from fuzz import driver
+
+        driver.campaign(rec, "C01", oracle_atheris, runs=6000, seeds=[b'\x00\x00\x02\x05hello\x03\x00\x01\x02\x00\x00\x01\x09', b''], max_total_time=420, jobs=8)
